@@ -316,6 +316,30 @@ fn gen_column(g: &mut Gen, cfg: &ColCfg, nkeys: u64, cluster: Option<u16>, ctr: 
 	for op in &ops {
 		apply(cfg.kind, &mut content, op);
 	}
+	if cluster.is_some() {
+		// removals AFTER all inserts of a clustered (one index page) key set: the freed index
+		// slots stay empty, so the page has holes in front of live entries when it is walked
+		let nrem = g.rng.range(2, 6);
+		for _ in 0..nrem {
+			if content.is_empty() {
+				break
+			}
+			let pick = g.rng.below(content.len() as u64) as usize;
+			let k = content.keys().nth(pick).unwrap().clone();
+			if let Some((_, n)) = content.get(&k).cloned() {
+				let times = if cfg.kind == Kind::Rc { n } else { 1 };
+				for _ in 0..times {
+					let op = Op::Dereference(k.clone());
+					apply(cfg.kind, &mut content, &op);
+					ops.push(op);
+				}
+				if !content.contains_key(&k) {
+					removed.push(k.clone());
+					ctr.inc("clustered.removed_after_inserts");
+				}
+			}
+		}
+	}
 	for (_, (v, n)) in content.iter() {
 		ctr.inc(&format!("size.{}", size_class(v.len())));
 		if cfg.kind == Kind::Rc {
